@@ -164,7 +164,16 @@ pub fn build_matrix<Ty: EdgeType, E: EW>(ag: &AG, hist: usize, rng: &mut Rng) ->
         g.add_edge(ids[s].unwrap(), ids[t].unwrap(), E::from_i64(w));
     }
     for j in junk {
+        // junk nodes also carry a self-loop: it must go away with the node (and not reappear on id reuse)
+        if !g.has_edge(j, j) {
+            g.add_edge(j, j, E::from_i64(GARBAGE_W));
+        }
         g.remove_node(j);
+    }
+    if garbage {
+        // reuse a freed id once and free it again
+        let x = g.add_node(-1);
+        g.remove_node(x);
     }
     (g, ids.into_iter().map(|x| x.unwrap()).collect())
 }
